@@ -127,7 +127,7 @@ Definition header_step (strip : Z) (st : hstate) (line : list N) : res (hstate +
   | Some r => do x <- parse_file_line strip r; Ok (inl (with_patch (set_index p (fst x))))
   | None =>
   match consume_str (bs "Prereq: ") line with
-  | Some r => do x <- parse_file_line strip r; Ok (inl (with_patch (set_prereq p (fst x))))
+  | Some r => do x <- parse_file_line 0 r; Ok (inl (with_patch (set_prereq p (fst x))))
   | None =>
   match consume_str (bs "diff --git ") line with
   | Some r =>
